@@ -1485,6 +1485,95 @@ def B7(F, rep):
                '%s changes a container buffer and its size field inconsistently: %s' % (short(fn['name']), seq), nontrivial=True)
 
 
+# ---------------------------------------------------------------------- R1/R2: the stream's copy loops advance consistently
+def R1(F, rep):
+    """in the copy loops of the in-memory stream, the number of bytes copied is the number by which the position, the caller's
+    pointer, the remaining count (and, when reading, the get count) are advanced - all four are the same expression"""
+    cls = 'Vector::BLF::UncompressedFile'
+    found = 0
+    for fn in methods_of(F, cls):
+        loops = [n for n in walk(fn['body'], into_lambda=False) if n.get('k') in ('While', 'For', 'Do')]
+        for lp in loops:
+            copies = [n for n in walk(lp['body']) if n.get('k') == 'Call' and (n.get('callee') or '').startswith('std::copy')]
+            if not copies:
+                continue
+            found += 1
+            rep.count('R1')
+            args = [_norm(expr_str(deep_resolve(a_, fn))) for a_ in copies[0]['args']]
+            # count of the copy: the difference between the two iterators of the source range
+            a0, a1 = args[0], args[1]
+            cnt = a1[len('(' + a0 + ' + '):-1] if a1.startswith('(' + a0 + ' + ') else None
+            upd = {}
+            for n in walk(lp['body']):
+                tgt = rhs = op = None
+                if n.get('k') == 'Bin' and n.get('op') in ('+=', '-='):
+                    tgt, rhs, op = n['lhs'], n['rhs'], n['op']
+                elif n.get('k') == 'Call' and n.get('ck') == 'operator' and n.get('op') in ('+=', '-=') and len(n.get('args', [])) == 2:
+                    tgt, rhs, op = n['args'][0], n['args'][1], n['op']
+                if tgt is None:
+                    continue
+                t = strip_all_casts(tgt)
+                name = t.get('name') if isinstance(t, dict) else None
+                if name:
+                    upd[name] = (op, _norm(expr_str(deep_resolve(rhs, fn))))
+            is_read = any(k.startswith('m_tellg') for k in upd)
+            want = {'m_tellg' if is_read else 'm_tellp': '+=', 's': '+=', 'n': '-='}
+            if is_read:
+                want['m_gcount'] = '+='
+            problems = []
+            if cnt is None:
+                problems.append('cannot identify the count of the copy')
+            for name, op in want.items():
+                if name not in upd:
+                    problems.append('%s is not advanced in the loop' % name)
+                elif upd[name][0] != op or (cnt is not None and upd[name][1] != cnt):
+                    problems.append('%s %s %s, but %s bytes are copied' % (name, upd[name][0], upd[name][1], cnt))
+            rep.ob('R1', '%s|%s' % (short(fn['name']), 'read' if is_read else 'write'), not problems, rep.fn_site(fn, lp['l']),
+                   '%s: position, caller pointer, remaining count%s all advance by the number of bytes copied' % (short(fn['name']), ' and get count' if is_read else '')
+                   if not problems else '%s: %s' % (short(fn['name']), '; '.join(problems)), nontrivial=True)
+    if found < 2:
+        raise AnalysisBroken('R1: expected the two copy loops of UncompressedFile, found %d' % found)
+
+
+def R2(F, rep, FL):
+    """a read that reaches beyond the declared end is shortened to what is left (n := m_fileSize - m_tellg) and reported (eof|fail);
+    the declared end follows the put position when writes pass it"""
+    cls = 'Vector::BLF::UncompressedFile'
+    rd = [f for f in methods_of(F, cls) if f['simple'] == 'read']
+    rep.count('R2')
+    ok = False
+    why = 'no branch on n + m_tellg > m_fileSize'
+    for fn in rd:
+        for n in walk(fn['body'], into_lambda=False):
+            if n.get('k') != 'If':
+                continue
+            atoms = _cmp_atoms(n['cond'])
+            if not any(a[1] == '>' and 'm_tellg' in a[0] and a[2] == 'm_fileSize' for a in atoms):
+                continue
+            asg = [x for x in walk(n.get('then') or {}) if x.get('k') == 'Bin' and x.get('op') == '=' and strip_all_casts(x['lhs']).get('name') == 'n']
+            st = [x for x in walk(n.get('then') or {}) if x.get('k') == 'Bin' and x.get('op') == '=' and mname(x['lhs']) == 'm_rdstate']
+            good_n = bool(asg) and _norm(expr_str(asg[0]['rhs'])) == '(m_fileSize - m_tellg)'
+            good_s = bool(st) and {'eofbit', 'failbit'} <= {y.get('name') for y in walk(st[0]['rhs']) if y.get('k') == 'Ref'}
+            ok = good_n and good_s
+            why = 'shortened to m_fileSize - m_tellg: %s; eof|fail set: %s' % (good_n, good_s)
+    rep.ob('R2', 'read|short-at-end', ok, rep.fn_site(rd[0]) if rd else None,
+           'UncompressedFile::read beyond the declared end is shortened to m_fileSize - m_tellg and sets eofbit|failbit' if ok else
+           'UncompressedFile::read at the declared end: ' + why, nontrivial=True)
+    wr = [f for f in methods_of(F, cls) if f['simple'] == 'write' and 'const char' in f['sig']]
+    rep.count('R2')
+    ok = False
+    for fn in wr:
+        for n in walk(fn['body'], into_lambda=False):
+            if n.get('k') == 'If':
+                atoms = _cmp_atoms(n['cond'])
+                if any(a[0] == 'm_tellp' and a[1] in ('>=', '>') and a[2] == 'm_fileSize' for a in atoms):
+                    asg = [x for x in walk(n.get('then') or {}) if x.get('k') == 'Bin' and x.get('op') == '=' and mname(x['lhs']) == 'm_fileSize']
+                    ok = bool(asg) and _norm(expr_str(asg[0]['rhs'])) == 'm_tellp'
+    rep.ob('R2', 'write|end-follows-put', ok, rep.fn_site(wr[0]) if wr else None,
+           'UncompressedFile::write moves the declared end along with the put position once writes pass it' if ok else
+           'UncompressedFile::write does not keep the declared end at or behind the put position', nontrivial=True)
+
+
 # ---------------------------------------------------------------------- E4 sticky failure, P5 position before publication
 def E4(F, rep):
     """a short read stays visible until the caller checks it: no stream operation a decoder performs resets the failure state
